@@ -21,8 +21,6 @@ type Query struct {
 	// results for all available values of all the listed columns for which a non-zero count result
 	// was determined.
 	GroupBy []string
-
-	groupByFields []groupBy
 }
 
 // Execute runs the provided query on the index and returns the query result.
@@ -36,7 +34,8 @@ func (idx *Index) Execute(q *Query) (*Result, error) {
 	idx.mtx.RLock()
 	defer idx.mtx.RUnlock()
 
-	if err := q.populateGroupBy(q.GroupBy, idx.schema); err != nil {
+	groupByFields, err := q.populateGroupBy(q.GroupBy, idx.schema)
+	if err != nil {
 		return nil, err
 	}
 
@@ -47,7 +46,7 @@ func (idx *Index) Execute(q *Query) (*Result, error) {
 
 	return &Result{
 		Count:  result.GetCardinality(),
-		Groups: q.groupBy(result, idx),
+		Groups: q.groupBy(groupByFields, result, idx),
 	}, nil
 }
 
@@ -83,11 +82,13 @@ type Expression interface {
 	cacheKey() uint64
 }
 
-func (q *Query) populateGroupBy(columns []string, sch *schema) error {
+func (q *Query) populateGroupBy(columns []string, sch *schema) ([]groupBy, error) {
+	var groupByFields []groupBy
+
 	for _, colName := range columns {
 		col, ok := sch.Columns[colName]
 		if !ok {
-			return fmt.Errorf("column %q not found", colName)
+			return nil, fmt.Errorf("column %q not found", colName)
 		}
 
 		gb := groupBy{Column: colName}
@@ -103,10 +104,10 @@ func (q *Query) populateGroupBy(columns []string, sch *schema) error {
 			return gb.Values[i].Value < gb.Values[j].Value
 		})
 
-		q.groupByFields = append(q.groupByFields, gb)
+		groupByFields = append(groupByFields, gb)
 	}
 
-	return nil
+	return groupByFields, nil
 }
 
 type resultGroup struct {
@@ -114,8 +115,8 @@ type resultGroup struct {
 	result *roaring.Bitmap
 }
 
-func (q *Query) groupBy(result *roaring.Bitmap, idx *Index) (finalResult []ResultGroup) {
-	if len(q.groupByFields) == 0 {
+func (q *Query) groupBy(groupByFields []groupBy, result *roaring.Bitmap, idx *Index) (finalResult []ResultGroup) {
+	if len(groupByFields) == 0 {
 		return nil
 	}
 
@@ -123,7 +124,7 @@ func (q *Query) groupBy(result *roaring.Bitmap, idx *Index) (finalResult []Resul
 		{result: result},
 	}
 
-	for _, gbf := range q.groupByFields {
+	for _, gbf := range groupByFields {
 		var newResultGroups []resultGroup
 
 		for _, rg := range resultGroups {
